@@ -238,6 +238,9 @@ fn cmd_check(env: &Env, prop: Prop, args: &[String]) -> i32 {
                         if scn.has_exotic {
                             st.bump("scenarios_with_exotic_values", 1);
                         }
+                        if scn.has_nonfinite {
+                            st.bump("scenarios_with_nonfinite_floats", 1);
+                        }
                         if let Some(sp) = &scn.special {
                             st.bump(&format!("probe_special_{sp}"), 1);
                         }
